@@ -7,6 +7,7 @@ import (
 	"math/rand"
 	"strings"
 	"sync"
+	"time"
 
 	"github.com/lindb/lindb/pkg/timeutil"
 	"github.com/lindb/lindb/sql"
@@ -385,6 +386,19 @@ func caseSQL(c *core.Ctx, r *rand.Rand) {
 	// (iii) same text again: equal statements (modulo the clock for now()-relative ranges).
 	// `fresh` is the snapshot of the first parse, taken before anything touches the result.
 	fresh := stmtDump(st, g.absTime)
+	if g.absTime {
+		// both bounds are literals of the text: the range is exactly these, whatever the clock says
+		c.Branch("time-literals-checked")
+		if g.future {
+			c.Branch("time-literal-after-now")
+		}
+		if q.TimeRange.Start != g.wantStart || q.TimeRange.End != g.wantEnd {
+			c.Fail("time-range-not-from-text", fmt.Sprintf("%q: TimeRange is [%d,%d], the literals say [%d,%d]", clip(text), q.TimeRange.Start, q.TimeRange.End, g.wantStart, g.wantEnd))
+		}
+		if g.future || r.Intn(4) == 0 {
+			time.Sleep(2 * time.Millisecond) // a value taken from the clock differs on the next parse
+		}
+	}
 	st2, err2 := parse(c, text)
 	if err2 != nil || stmtDump(st2, g.absTime) != fresh {
 		c.Fail("parser-nondeterministic", fmt.Sprintf("%q parsed twice gives different statements (err=%v)", text, err2))
@@ -428,7 +442,11 @@ func caseSQL(c *core.Ctx, r *rand.Rand) {
 	case 3, 4:
 		// the real plan stages: what the leaves decode must be what the planning node holds
 		if queryWellFormed(q) {
-			planStages(c, r, q, "parsed from "+clip(text))
+			aligned := int64(0)
+			if r.Intn(3) == 0 {
+				aligned = 1 + r.Int63n(6)
+			}
+			planStages(c, r, q, "parsed from "+clip(text), aligned)
 		}
 	}
 }
@@ -530,7 +548,7 @@ func caseTrees(c *core.Ctx, r *rand.Rand) {
 		q := randQuery(r, 1+r.Intn(3))
 		queryOps(c, q, "", "random statement value")
 		if r.Intn(3) == 0 {
-			planStages(c, r, q, "random statement value")
+			planStages(c, r, q, "random statement value", 0)
 		}
 	case 1:
 		c.Branch("random-metadata-value")
@@ -806,6 +824,36 @@ func caseAliasing(c *core.Ctx, r *rand.Rand) {
 	c.NonTrivial()
 }
 
+// caseTimeFixed: absolute bounds before, around and after the wall clock: TimeRange is exactly the
+// literals, and the same on a parse a few milliseconds later.
+func caseTimeFixed(c *core.Ctx) {
+	c.Branch("time-fixed")
+	for _, t := range []struct {
+		text       string
+		start, end int64
+	}{
+		{"select f from cpu where time > '20200101 00:00:00' and time < '20990101 00:00:00'", 1577836800000, 4070908800000},
+		{"select f from cpu where time >= '2090-06-01 12:00:00' and time <= '2090-06-02 12:00:00' and host='a'", 3800001600000, 3800088000000},
+		{"select f from cpu where host='a' and time < '2021/03/04 05:06:07' and time > '2021/03/04 05:06:06'", 1614834366000, 1614834367000},
+	} {
+		st, err := parse(c, t.text)
+		if err != nil {
+			c.Fail("time-witness-rejected", t.text+": "+err.Error())
+			continue
+		}
+		q := st.(*stmt.Query)
+		if q.TimeRange.Start != t.start || q.TimeRange.End != t.end {
+			c.Fail("time-range-not-from-text", fmt.Sprintf("%q: TimeRange is [%d,%d], the literals say [%d,%d]", t.text, q.TimeRange.Start, q.TimeRange.End, t.start, t.end))
+		}
+		time.Sleep(3 * time.Millisecond)
+		st2, err2 := parse(c, t.text)
+		if err2 != nil || stmtDump(st2, true) != stmtDump(st, true) {
+			c.Fail("parser-nondeterministic", fmt.Sprintf("%q parsed again 3ms later gives a different statement", t.text))
+		}
+		queryOps(c, q, "", "parsed from "+t.text)
+	}
+}
+
 // casePlanFixed: fixed statements through the real plan stages — several grouping keys NOT in
 // lexicographic order, several select items with aliases, having, order by, limit, time().
 func casePlanFixed(c *core.Ctx, r *rand.Rand) {
@@ -825,7 +873,10 @@ func casePlanFixed(c *core.Ctx, r *rand.Rand) {
 		if !strings.Contains(text, "'2019") {
 			q.TimeRange = timeutil.TimeRange{Start: 1554854400000, End: 1554861600000}
 		}
-		planStages(c, r, q, "parsed from "+text)
+		planStages(c, r, q, "parsed from "+text, 0)
+		for _, k := range []int64{1, 2, 3, 24} {
+			planStages(c, r, q, "parsed from "+text, k)
+		}
 	}
 	for _, text := range []string{"show tag values from cpu with key=host where zone='z' and app in ('b','a') limit 5", "show fields from cpu", "show metrics on ns where metric='a'"} {
 		st, err := parse(c, text)
@@ -856,6 +907,8 @@ func (area) Run(c *core.Ctx) error {
 			caseAliasing(c, r)
 		case i == 6:
 			casePlanFixed(c, r)
+		case i == 7:
+			caseTimeFixed(c)
 		default:
 			switch k := r.Intn(100); {
 			case k < 45:
